@@ -192,3 +192,18 @@ Example C04_reader_wf_example : reader_wf ex_module = true.
 Proof. exact ex_module_wf. Qed.
 Example C04_reader_text_example : exists m, read_text ex_text = Some m /\ m_name m = [109%N].
 Proof. eexists. split. - exact ex_text_read. - reflexivity. Qed.
+
+(* ------------------------------------------------------------------ from TEXT: printer + parser + reader
+   [Printer.print_forest] (Model/Printer.v) writes a statement forest as YANG text that the parser provably reads back
+   (C02_print_parse).  Composed with the reader round trip: the text printed from the rendered module is read by
+   [read_text] -- lexer, parser and reader models end to end -- as the module itself.  Partial: that the rendered tree is
+   printable and ASCII, and that the reader does not look at positions, are hypotheses (boolean / by inspection of
+   Model/Reader.v; all three hold by computation on the example module of Proofs/PrinterReaderProofs.v). *)
+From GY Require Proofs.PrinterReaderProofs.
+Theorem C04_reader_print_read_text_partial : forall m : Schema.module, Reader.reader_wf m = true ->
+  Printer.forest_ok [Spec.C02.erase (Reader.render_module m)] = true ->
+  Reader.is_ascii (Printer.print_forest [Spec.C02.erase (Reader.render_module m)]) = true ->
+  (forall s', Spec.C02.erase s' = Spec.C02.erase (Reader.render_module m) ->
+              Reader.read_module0 s' = Reader.read_module0 (Reader.render_module m)) ->
+  Reader.read_text (Printer.print_forest [Spec.C02.erase (Reader.render_module m)]) = Some m.
+Proof. exact PrinterReaderProofs.print_render_read_text_partial. Qed.
